@@ -6,11 +6,18 @@ VERIF = os.path.dirname(os.path.dirname(os.path.abspath(__file__)))
 
 def main(logs):
     rows = {}
+    known = set()
+    kf = os.path.join(VERIF, 'KNOWN_FINDINGS.txt')
+    for line in open(kf, encoding='utf8'):
+        m = re.match(r'^known:.*?signature=(\S+)', line)
+        if m:
+            known.add(m.group(1))
     for log in logs:
         for line in open(log):
             m = re.match(r'^(C\d\d-[A-Z])\s+(C\d\d) seed=(\d+) (\S+)\s+(\S+)?\s+([\d.]+)s (.*)$', line.rstrip())
             if m:
                 sid, chk, seed, verdict, demo, secs, sigs = m.groups()
+                sigs = ' '.join(x for x in sigs.split() if x.rstrip(',') not in known)      # known findings are not what caught the change
                 rows.setdefault(sid, {})[chk] = (verdict, sigs.strip())
     out = ['# Seeded changes and the checks that catch them', '',
            'Each directory `seeded/<id>/` holds `patch.diff` (against /repo HEAD), `demo.py` (exit 1 with the patch, 0 without) and `meta.json`.',
